@@ -242,6 +242,16 @@ def partition_problem(
         subobservables_by_subsystem = decompose_observables(
             observables, partition_labels
         )
+        # Qubits labeled ``None`` are idle and are dropped from the subcircuits,
+        # so they may only carry the identity.
+        idle_observables = subobservables_by_subsystem.pop(None, None)
+        if idle_observables is not None and (
+            idle_observables.x.any() or idle_observables.z.any()
+        ):
+            raise ValueError(
+                "An input observable acts non-trivially on a qubit with a partition "
+                "label of `None` (an idle qubit)."
+            )
 
     return PartitionedCuttingProblem(
         separated_circs.subcircuits,  # type: ignore
